@@ -1185,6 +1185,28 @@ func (ex *Exec) evalSpecFunc(name string, call *ast.CallExpr, st *State) []Value
 			st.ghost["net."+name] = g
 		}
 		return []Value{g}
+	case "lastreadn", "lastreadwant":
+		k := "io.lastn"
+		if name == "lastreadwant" {
+			k = "io.lastwant"
+		}
+		g, ok := st.ghost[k]
+		if !ok {
+			g = namedValue("ghost|"+k+"0", types.Typ[types.Int])
+			st.assumeValid(g)
+			st.ghost[k] = g
+		}
+		return []Value{g}
+	case "lastreadof":
+		t := ex.info().TypeOf(call.Args[0])
+		k := "bin.last:" + typeKey(t)
+		g, ok := st.ghost[k]
+		if !ok {
+			g = namedValue("ghost|"+k+"0", t)
+			st.assumeValid(g)
+			st.ghost[k] = g
+		}
+		return []Value{g}
 	case "hastype":
 		x := ex.eval(call.Args[0], st)
 		tt := ex.info().TypeOf(call.Args[1])
